@@ -172,6 +172,29 @@ def run(ctx):
         "instantiates Common/Sha256.v (checked against crypto/sha256 by the harness)",
         "guard of every theorem: number of received secrets <= 2^48-1 (at index 0 the Go array "
         "[48]element would be indexed at 48 and panic; not modelled)"])
+    # private file names per process: concurrent `./check C06` runs must not share
+    # trace / cases files (seen once: interleaved writes -> "Syntax error" in a shard)
+    uid = ctx.uid("p%d" % os.getpid())
+    try:
+        _run(ctx, pr, uid)
+    finally:
+        _cleanup(uid)
+
+
+def _cleanup(uid):
+    import glob as _glob
+    import shutil as _shutil
+    from lib import verif as _v
+    for p in _glob.glob(os.path.join(_v.BUILD, "coq_eval", "*cases_%s*" % uid)) + \
+            _glob.glob(os.path.join(_v.BUILD, "trace_%s*.jsonl" % uid)):
+        try:
+            os.remove(p)
+        except OSError:
+            pass
+    _shutil.rmtree(os.path.join(_v.BUILD, "overlay", uid), ignore_errors=True)
+
+
+def _run(ctx, pr, uid):
     henv = {}
     if ctx.replay:
         # re-run exactly the recorded inputs on the current tree
@@ -182,7 +205,7 @@ def run(ctx):
                      % rep.get("kind"))
         else:
             henv["VERIF_REPLAY"] = os.path.abspath(ctx.replay)
-    rc, trace, out = run_harness(ctx.uid(), "shachain", ["shachain/verif_store_test.go"],
+    rc, trace, out = run_harness(uid, "shachain", ["shachain/verif_store_test.go"],
                                  "^TestVerifShachain$", timeout=1500, env=henv)
     rows = read_jsonl(trace)
     if rc != 0 or not rows:
@@ -212,7 +235,7 @@ def run(ctx):
         if not part:
             continue
         terms = [clist([op_term(o) for o in c["ops"]]) for c in part]
-        ok, bad, logs = coq_mismatches(ctx.uid(tag), IMPORTS, terms, shard=shard, timeout=3000)
+        ok, bad, logs = coq_mismatches(uid + tag, IMPORTS, terms, shard=shard, timeout=3000)
         if not ok:
             ctx.violation("correspondence_mismatch", "Shachain.Exec (model evaluation failed)",
                           {"logs": logs}, signature="model-eval", failing_input=False)
